@@ -231,3 +231,22 @@ def rule_h1(chk, prog, rule="H1"):
         chk.finding(rule, d.key, "drain-shape", "", "%s:%s" % (d.file, d.line),
                     "drain_buffers no longer forwards the reader's buffered bytes to the other side and flushes them (%s)" % why)
     return n
+
+
+def fn_calling(prog, callee_pattern, file_suffix=None, crate="redproxy_rs"):
+    """the unique local coroutine/function (optionally in a given file) that calls a callee matching the pattern:
+    anchors are located by what the code does, not by what the function is called"""
+    rx = re.compile(callee_pattern)
+    out = []
+    for f in prog.fns.values():
+        if f.crate != crate:
+            continue
+        if file_suffix and not f.file.endswith(file_suffix):
+            continue
+        if any(rx.search(c.name or "") or rx.search(c.path or "") for c in f.calls):
+            out.append(f)
+    if len(out) != 1:
+        from ..mir import AnchorMissing
+        raise AnchorMissing("expected exactly one function%s calling %s, found %d: %s" % (
+            (" in " + file_suffix) if file_suffix else "", callee_pattern, len(out), [f.path for f in out][:4]))
+    return out[0]
